@@ -337,7 +337,7 @@ def decodeTransformParams (decoderType numComponents : Nat) : DecM TransformData
 
 /-- the public form of a decoded attribute (`TransformAttributesToOriginalFormat` or the copy of the
     portable attribute when the transform is skipped); `mp` = point → value map -/
-def finishAttribute (opts : DecOpts) (s : SeqAttState) (numValues : Nat) (mp : Option (List Nat)) : DecM Attribute := do
+def finishSeqAttribute (opts : DecOpts) (s : SeqAttState) (numValues : Nat) (mp : Option (List Nat)) : DecM Attribute := do
   let d := s.desc
   if s.decoderType == 0 then
     pure { d.toAttribute numValues s.rawValues with map := mp }
@@ -401,7 +401,7 @@ def decodeSequentialAttributesLegacy (opts : DecOpts) (numPoints : Nat) : DecM (
         let s' := { s with portable := vals, transform := tr }
         storeValuesCheck s'
         pure s') states
-  mapM' (fun (s : SeqAttState) => finishAttribute opts s numPoints none) states
+  mapM' (fun (s : SeqAttState) => finishSeqAttribute opts s numPoints none) states
 
 /-- the controller for the bitstream version of the stream -/
 def decodeSequentialAttributesV (opts : DecOpts) (numPoints : Nat) : DecM (List Attribute) := do
